@@ -3,7 +3,7 @@
 from __future__ import annotations
 
 from dataclasses import dataclass, field
-from typing import TYPE_CHECKING, Literal, overload
+from typing import TYPE_CHECKING, Literal, cast, overload
 
 import numpy as np
 import pandas as pd
@@ -486,11 +486,17 @@ class Simulation:
 
         if scaled:
             fluxes = [i.copy() for i in fluxes]
-            for v, p in zip(fluxes, self.raw_parameters, strict=True):
+            for v, p, variables in zip(
+                fluxes, self.raw_parameters, self.raw_variables, strict=True
+            ):
                 self.model.update_parameters(p)
-                stoichs = self.model.get_stoichiometries_of_variable(variable)
-                for k in names:
-                    v.loc[:, k] *= stoichs[k]
+                # Coefficients can depend on the state, so take them at every row
+                for time, row in variables.iterrows():
+                    stoichs = self.model.get_stoichiometries_of_variable(
+                        variable, variables=row.to_dict(), time=cast(float, time)
+                    )
+                    for k in names:
+                        v.loc[time, k] *= stoichs[k]
 
         self.model.update_parameters(self.raw_parameters[-1])
         if concatenated:
@@ -550,11 +556,17 @@ class Simulation:
 
         if scaled:
             fluxes = [i.copy() for i in fluxes]
-            for v, p in zip(fluxes, self.raw_parameters, strict=True):
+            for v, p, variables in zip(
+                fluxes, self.raw_parameters, self.raw_variables, strict=True
+            ):
                 self.model.update_parameters(p)
-                stoichs = self.model.get_stoichiometries_of_variable(variable)
-                for k in names:
-                    v.loc[:, k] *= -stoichs[k]
+                # Coefficients can depend on the state, so take them at every row
+                for time, row in variables.iterrows():
+                    stoichs = self.model.get_stoichiometries_of_variable(
+                        variable, variables=row.to_dict(), time=cast(float, time)
+                    )
+                    for k in names:
+                        v.loc[time, k] *= -stoichs[k]
 
         self.model.update_parameters(self.raw_parameters[-1])
         if concatenated:
